@@ -47,7 +47,7 @@ THEOREMS = ["P_SameShape: [][SameH(obj, obj')]_vars", "P_Structure (every origin
 
 
 def run(ctx):
-    res = core.run_tlc("MC_C05", "MC_C05_%s.cfg" % ctx.tier, timeout=3400)
+    res = core.run_model(ctx, "MC_C05", 3400, thorough_seeds=(2, 3))
     core.tlc_must_pass(res, "MC_C05")
     ctx.add_tlc(res, "exhaustive over initial shapes x refinement calls (histories up to depth 2 for curves)")
     ctx.theorems = THEOREMS
